@@ -27,15 +27,20 @@ ASSUMPTIONS = [
     "tensorflow and jax histories run in dedicated shards (import / dispatch cost); the dtype of results is not asserted (the numpy 32b backend upcasts through float64 constants)",
 ]
 EPS32 = 2.0**-23
+FIT_RTOL = 1e-10
 
 
 def shards(tier):
     q = tier == "quick"
     out = []
-    for i in range(8):
-        out.append({"name": f"hist{i}", "tf": False, "jax": False, "examples": 28 if q else 1500})
-    for i in range(5):
+    for i in range(7):
+        out.append({"name": f"hist{i}", "tf": False, "jax": False, "examples": 32 if q else 1700})
+    for i in range(3):
         out.append({"name": f"hist_jax{i}", "tf": False, "jax": True, "examples": 6 if q else 250})
+    for i in range(3):
+        # fit-heavy histories over {jax, numpy} x {32b, 64b}: the same model is fitted again after a precision
+        # switch (jit caches keyed on the model object survive the switch)
+        out.append({"name": f"hist_jaxfit{i}", "tf": False, "jax": True, "fit_heavy": True, "examples": 6 if q else 200})
     for i in range(3):
         out.append({"name": f"hist_tf{i}", "tf": True, "jax": False, "examples": 5 if q else 150})
     return out
@@ -58,13 +63,18 @@ def strategy_(draw, shard):
         interps.append({"code": code, "hist": [[[dn, nom, up]]],
                         "alphas": [[draw(st.sampled_from([0.0, 0.5, -0.7, 1.0, -1.0, 1.5, -2.0, 3.0])) for _ in range(draw(st.integers(1, 3)))]]})
     bes = ["numpy", "pytorch"] + (["jax"] if shard.get("jax") else []) + (["tensorflow"] if shard.get("tf") else [])
-    n = draw(st.integers(10, 26))
+    heavy = bool(shard.get("fit_heavy"))
+    if heavy:
+        bes = ["jax", "jax", "numpy"]
+    n = draw(st.integers(8, 16) if heavy else st.integers(10, 26))
     ops = []
     for _ in range(n):
         k = draw(st.integers(0, 11))
+        if heavy and k >= 4:
+            k = (4, 8, 9, 11, 11, 11, 11, 11)[k - 4]
         if k <= 3:
             ops.append({"op": "switch", "backend": draw(st.sampled_from(bes)),
-                        "precision": draw(st.sampled_from(["64b", "64b", "64b", "32b"])),
+                        "precision": draw(st.sampled_from(["64b", "32b"] if heavy else ["64b", "64b", "64b", "32b"])),
                         "optimizer": draw(st.sampled_from(["scipy", "scipy", "minuit"]))})
         elif k == 4:
             ops.append({"op": "create_model", "idx": draw(st.integers(0, 1))})
@@ -215,7 +225,10 @@ def run_case(case, ctx):
                     seq.append(f"eval:{o.kind}")
                 elif kind == "fit":
                     models = [o for o in objs if o.kind == "model"]
-                    if not models or state["precision"] != "64b" or state["backend"] == "tensorflow":
+                    # pytorch/tensorflow at 32b hand scipy a float32 objective, which SLSQP rejects in a fresh
+                    # process as well: not a statement about switching, so 32b fits run on numpy and jax only
+                    if not models or state["backend"] == "tensorflow" or (
+                            state["precision"] != "64b" and state["backend"] not in ("numpy", "jax")):
                         continue
                     o = models[op["which"] % len(models)]
                     cfg = o.handle.config
@@ -227,9 +240,13 @@ def run_case(case, ctx):
                     except pyhf.exceptions.FailedMinimization:
                         continue
                     v_old, v_new = float(backends.tonp(v_old)), float(backends.tonp(v_new))
-                    tol = 2e-4 if state["optimizer"] == "scipy" else 2e-3
+                    # the same deterministic optimiser on the same function from the same start: the two fits
+                    # agree to rounding unless the old object (or a cache keyed on it) carries state of an earlier backend
+                    tol = FIT_RTOL * (1.0 + abs(v_new))
+                    ctx.err("fit_old_vs_fresh", abs(v_old - v_new) / tol)
                     if abs(v_old - v_new) > tol:
-                        ctx.fail(f"C11/fit_on_old_object_differs_from_fresh/{state['backend']}", old=v_old, fresh=v_new)
+                        ctx.fail(f"C11/fit_on_old_object_differs_from_fresh/{state['backend']}/{state['precision']}",
+                                 old=v_old, fresh=v_new, history=seq[-12:])
                     if real_switches >= 2 and o.born < last_switch_step:
                         nt = True
                     seq.append("fit")
